@@ -29,7 +29,7 @@ const POW_BITS: u8 = 20;
 pub const MENU: [&[&str]; 6] = [
     &["honest-config", "fri-input-size-above-domain (degree test vacuous)", "blow-up-exponent-0 (degree test vacuous)", "one-query"],
     &["low-degree-random-columns", "first-trace-not-low-degree"],
-    &["true-values", "solved-composition-pair", "appended-solved-pair", "prepended-junk", "zero-mask+solved-pair", "one-value-short"],
+    &["true-values", "solved-composition-pair", "appended-solved-pair", "prepended-junk", "zero-mask+solved-pair", "one-value-short", "solved-pair-after-65536-padding"],
     &["fri-of-deep-function", "fri-of-unrelated-poly+adaptive-leaves", "fri-of-unrelated-poly"],
     &["ground-nonce", "nonce-0"],
     &["honest-openings", "forged-inner-fri-path", "forged-trace-path", "adaptive-composition-openings", "adaptive-original-trace-openings", "adaptive-interaction-trace-openings"],
@@ -354,6 +354,8 @@ fn oods_stage(s: &Setup, mv: &Moves, com: &Committed, config: &StarkConfig, c_re
         2 => mask_true.iter().cloned().chain(comp_true).chain(solved(&mask_true)).collect(),
         3 => std::iter::once(ctx.rng(0x0103).felt()).chain(mask_true.iter().cloned()).chain(comp_true).collect(),
         4 => zero_mask.iter().cloned().chain(solved(&zero_mask)).collect(),
+        // true values, then 65534 junk values, then the solved pair: the length equals the right one modulo 2^16
+        6 => mask_true.iter().cloned().chain(comp_true).chain((0..65534u64).map(|i| Felt::from(i + 7))).chain(solved(&mask_true)).collect(),
         _ => mask_true.iter().cloned().chain(std::iter::once(comp_true[0])).collect(),
     };
     sp.absorb(&oods);
